@@ -227,12 +227,35 @@ def item_list_grammar(rng):
             out += expand(r, x)
         return out
 
+    queue = []
+
     def input_gen(r):
-        kinds = [expand(r, "I") for _ in range(r.randrange(1, 3))]
-        w = []
-        for _ in range(r.randrange(2, 6)):
-            w += r.choice(kinds) if r.random() < 0.8 else expand(r, "I")
-        if r.random() < 0.25:
+        # first, systematically: all sequences of three items over two item strings, then of four over two or
+        # three (which item follows which, and how often, decides what is found again in the parser's caches)
+        if not queue and not getattr(input_gen, "drained", False):
+            items = []
+            for _ in range(12):
+                it = expand(r, "I")
+                if it not in items:
+                    items.append(it)
+            r.shuffle(items)
+            two = items[:2] if len(items) >= 2 else items * 2
+            seqs = [list(x) for x in itertools.product(two, repeat=3)]
+            more = [list(x) for x in itertools.product(items[:3], repeat=4)]
+            r.shuffle(more)
+            seqs += more[:16]
+            r.shuffle(seqs)
+            for sq in seqs:
+                queue.append([t for it in sq for t in it][:16])
+            input_gen.drained = True
+        if queue:
+            w = queue.pop()
+        else:
+            kinds = [expand(r, "I") for _ in range(r.randrange(1, 3))]
+            w = []
+            for _ in range(r.randrange(2, 6)):
+                w += r.choice(kinds) if r.random() < 0.8 else expand(r, "I")
+        if r.random() < 0.2:
             w = edits(r, w, tnames, 1)
         return w[:16]
     g.input_gen = input_gen
@@ -277,6 +300,76 @@ def overlap_grammar(rng):
         if rng.random() < 0.4:
             rules.append(Rule("M", [t()], "m", 1, []))
     return Grammar(terms, rules)
+
+
+def tail_chain_grammar(rng, listed_p=0.4):
+    """A chain of tail inclusions  Nk : [prefix] N(k-1), ..., N1 : N0 | t, N0 : t  below a start rule that puts a
+    terminal behind Nk, written bottom-up, top-down or shuffled, with an ambiguity somewhere in the chain: what may
+    follow the deepest nonterminal is known only after FOLLOW has travelled down the whole chain, against the order
+    in which the nonterminals were introduced when the grammar is written bottom-up."""
+    depth = rng.randrange(3, 7)
+    pre = ["'-'", "'!'", "'~'"]
+    terms = [("p", 112), ("a", 97), ("';'", 59)] + [(x, ord(x[1])) for x in pre]
+    top = Rule("S", (["p"] if rng.random() < 0.7 else []) + ["N%d" % depth, "';'"], "top", 1, None)
+    top.transl = [top.rhs.index("N%d" % depth)]
+    if rng.random() < 0.4:
+        terms.append(("q", 113))
+        extra_top = Rule("S", ["q", "N%d" % rng.randrange(depth + 1), "';'", "';'"], "top2", 1, [1])
+    else:
+        extra_top = None
+    chain = [Rule("N0", ["a"], "id", 1, [0])]
+    amb_at = rng.randrange(1, depth + 1)
+    for i in range(1, depth + 1):
+        prefix = [rng.choice(pre)] if rng.random() < 0.35 else []
+        rhs = prefix + ["N%d" % (i - 1)]
+        if prefix or rng.random() < 0.3:
+            chain.append(Rule("N%d" % i, rhs, "n%d" % i, rng.randrange(3), [len(rhs) - 1]))
+        else:
+            chain.append(Rule("N%d" % i, rhs, None, 0, [0]))
+        if i == amb_at:
+            # a second way to derive what the lower part derives
+            chain.append(Rule("N%d" % i, ["a"], "lit%d" % i, rng.randrange(3), [0]))
+        elif rng.random() < 0.2:
+            chain.append(Rule("N%d" % i, ["a", "a"], "two%d" % i, 1, [0, 1]))
+    order = rng.random()
+    if order < 0.5:
+        body = chain                              # bottom-up
+    elif order < 0.75:
+        body = chain[::-1]                        # top-down
+    else:
+        body = chain[:]
+        rng.shuffle(body)
+    rules = [top] + ([extra_top] if extra_top else []) + body
+    listed = rng.random() < listed_p
+    if listed:
+        # a list of such statements: something follows a statement (and a recovery has something to resume with)
+        rules = [Rule("P", ["P", "S"], "seq", 1, [0, 1]), Rule("P", ["S"], None, 0, [0])] + rules
+    used = set(x for r in rules for x in r.rhs)
+    g = Grammar([t for t in terms if t[0] in used], rules)
+    if listed:
+        by_lhs = {}
+        for r in rules:
+            by_lhs.setdefault(r.lhs, []).append(r)
+        tnames = g.term_names()
+
+        def expand(r, sym):
+            if sym not in by_lhs:
+                return [sym]
+            out = []
+            for x in r.choice(by_lhs[sym]).rhs:
+                out += expand(r, x)
+            return out
+
+        def input_gen(r):
+            w = []
+            for _ in range(r.randrange(2, 5)):
+                w += expand(r, "S")
+            if r.random() < 0.4 and w:
+                k = r.randrange(min(4, len(w)))          # an error early, valid statements behind it
+                w = w[:k] + edits(r, w[k:k + 1], tnames, 1) + w[k + 1:]
+            return w[:16]
+        g.input_gen = input_gen
+    return g
 
 
 def accepted_random_grammar(rng, strict=None, tries=200, **kw):
